@@ -10,7 +10,7 @@ RULE = ('every labelled simple graph on n <= N vertices (all 2^(n(n-1)/2) edge s
         'and edge cover, running intersection) checked by the harness; width vs exact treewidth (subset DP); '
         'min_fill/quickbb orders re-eliminated by the harness; bounds bracket the treewidth. Non-trivial = graph '
         'with >= 1 edge; distinct by (n, edge bits, order). Quick tier additionally replays the 80 pre-computed 7-vertex graphs on '
-        'which min-fill is suboptimal (data/hard7.json) and all their one-vertex extensions; hub graphs (3 hubs: every choice of 0-2 parallel 2-paths and an optional direct edge per hub pair, <= 9 vertices; 4 hubs: uniform choices, <= 16 vertices). Thorough tier additionally: every one-vertex extension (8 vertices) '
+        'which min-fill is suboptimal (data/hard7.json) and all their one-vertex extensions; hub graphs (3 hubs: every choice of 0-2 parallel 2-paths and an optional direct edge per hub pair, <= 9 vertices; 4 hubs: uniform choices, <= 16 vertices). Thorough tier additionally: every two-vertex extension (9 vertices) of the hard7 graphs and every one-vertex extension (8 vertices) '
         'of each 7-vertex graph on which min-fill is suboptimal, i.e. where quickbb actually has to search.')
 ASSUMPTIONS = ['vertices are small ints', 'treewidth oracle: Bodlaender et al. subset DP, plain Python']
 METHODS = ('min_fill', 'quickbb', 'acb')
@@ -53,6 +53,8 @@ def gen_cases(tier, seed):
 def describe(case):
     if case[0] == 'hub':
         return {'hubs': case[1][0], 'per_pair_(parallel_2-paths, direct_edge)': list(case[1][1])}
+    if case[0] == 'ext9':
+        return {'two_vertex_extensions_of_7_vertex_graph_with_edge_bits': case[1], 'neighbourhood_mask_of_vertex_7': case[2]}
     if case[0] == 'ext8':
         return {'one_vertex_extensions_of_7_vertex_graph_with_edge_bits': case[1]}
     return {'n': case[0], 'edge_bits_from': case[1], 'to': case[2]}
@@ -177,6 +179,27 @@ def run_case(case):
             g = hub_graph(case[1], order)
             judge_graph(g, ('hub', case[1], order), case, True, r)
         return r
+    if case[0] == 'ext9':
+        # every two-vertex extension of a hard 7-vertex graph: this case fixes the 8th vertex' neighbourhood
+        _, bits, m8 = case
+        base = mkgraph(7, bits, 0)
+        for m9 in range(256):
+            for order in (0, 1):
+                vs = list(range(9))
+                if order:
+                    vs.reverse()
+                g = {v: set() for v in vs}
+                for u in base:
+                    for v in base[u]:
+                        g[u].add(v)
+                for u in range(7):
+                    if m8 >> u & 1:
+                        g[7].add(u); g[u].add(7)
+                for u in range(8):
+                    if m9 >> u & 1:
+                        g[8].add(u); g[u].add(8)
+                judge_graph(g, ('ext9', bits, m8, m9, order), ('ext9', bits, m8), True, r)
+        return r
     if case[0] == 'ext8':
         # every one-vertex extension of a 7-vertex graph on which min-fill is not optimal (quickbb has to search there)
         _, bits = case
@@ -272,3 +295,10 @@ def explore(tier, seed, acc, jobs):
         acc.caps.append('8-vertex extensions built for the first %d of %d hard 7-vertex graphs' % (cap, len(hard)))
         hard = hard[:cap]
     run_pool(me, [('ext8', b) for b in hard], acc, jobs=jobs, chunk=4)
+    # 9 vertices: every two-vertex extension of the pre-computed hard 7-vertex graphs (data/hard7.json)
+    import json, os
+    path = os.path.join(os.path.dirname(os.path.dirname(os.path.abspath(__file__))), 'data', 'hard7.json')
+    if os.path.exists(path):
+        h7 = json.load(open(path))
+        acc.extra['two_vertex_extensions_of_hard7'] = len(h7) * 128 * 256
+        run_pool(me, [('ext9', b, m8) for b in h7 for m8 in range(128)], acc, jobs=jobs, chunk=8)
